@@ -231,7 +231,7 @@ class SymCx(BaseCx):
     def int(self, name, lo, hi):
         ex = self.ex
         w = ex.width
-        v = ex.declare(name, 'int', lambda: z3.BitVec(name, w))
+        v = ex.declare(name, 'int', lambda: z3.BitVec(name, w) if w else z3.Int(name))
         s = SymInt(v, lo, hi, w)
         if ex.pos < len(ex.trail):
             if not ex.trail[ex.pos].is_assume:
@@ -462,7 +462,7 @@ def run_job(hdef, params, known=(), max_paths=2_000_000, deadline_s=3600,
     or INCONCLUSIVE (never HOLDS unless the trail was exhausted)."""
     res = JobResult(hdef.name, params)
     t0 = time.time()
-    ex = Explorer(width=width or core.W)
+    ex = Explorer(width=core.W if width is None else width)
     stubs.snapshot_globals()
     seen_labels = set()
     inconclusive = []
